@@ -7,7 +7,7 @@ Import ListNotations.
 
 Inductive run :=
 | RBalance (limit : N) (colls : list (option N)) (dts : list N) (trace : list step)
-           (final_reps : list (N * list N))   (* planner's volumeReplicas afterwards: vid -> node ids *)
+           (final_reps : list (N * list loc)) (* planner's volumeReplicas afterwards: vid -> (dc, rack, server) *)
 | REvac (this : N) (skip : bool) (evs : list eevent)
 | RFix (retry : nat) (evs : list fevent)
 | RGoodMove (b : N) (reps : list loc) (src tgt : loc) (impl : bool)
@@ -23,8 +23,17 @@ Fixpoint list_N_eqb (a b : list N) : bool :=
   | _, _ => false
   end.
 
-Definition reps_agree (w : world) (obs : list (N * list N)) : bool :=
-  forallb (fun p => list_N_eqb (map (fun r => l_node (r_loc r)) (w_reps w (fst p))) (snd p)) obs.
+Fixpoint list_loc_eqb (a b : list loc) : bool :=
+  match a, b with
+  | [], [] => true
+  | x :: a', y :: b' => loc_eqb x y && list_loc_eqb a' b'
+  | _, _ => false
+  end.
+
+(* the planner's replica-location bookkeeping (data center and rack included) must be the
+   model's, which is the real cluster after the plan *)
+Definition reps_agree (w : world) (obs : list (N * list loc)) : bool :=
+  forallb (fun p => list_loc_eqb (locs (w_reps w (fst p))) (snd p)) obs.
 
 (* every failing clause must be explained by an active trigger of a finding about that clause *)
 Definition explain (fails : list (bool * list (N * bool))) : option N :=
